@@ -516,7 +516,7 @@ func writeKFiles(res *vlib.Result, out string, cases []string, shards int) {
 		name := fmt.Sprintf("cases_%s_%d.v", res.Property, i)
 		var sb strings.Builder
 		sb.WriteString("From GL Require Import Corr.C13Run.\n")
-		sb.WriteString("From Coq Require Import List NArith String.\nImport ListNotations.\nOpen Scope string_scope.\nOpen Scope N_scope.\n")
+		sb.WriteString("From Coq Require Import List NArith ZArith String.\nImport ListNotations.\nOpen Scope string_scope.\nOpen Scope N_scope.\n")
 		sb.WriteString("Definition cases : list c13case :=\n " + vlib.CoqList(b) + ".\n")
 		sb.WriteString("Definition M := Eval vm_compute in mismatches cases.\nPrint M.\n")
 		sb.WriteString("Definition W := Eval vm_compute in soft_mismatches cases.\nPrint W.\n")
@@ -527,7 +527,7 @@ func writeKFiles(res *vlib.Result, out string, cases []string, shards int) {
 	res.KCases += len(cases)
 }
 
-func emitK(a vlib.Args, res *vlib.Result, r *vlib.RNG) {
+func emitK(a vlib.Args, res *vlib.Result, r *vlib.RNG, ucases []string) {
 	if a.Replay != "" {
 		return
 	}
@@ -543,6 +543,7 @@ func emitK(a vlib.Args, res *vlib.Result, r *vlib.RNG) {
 	bcs = kBlockCases(rb, b.blocks, res)
 	tcs = append(tcs, kDirectedEmpty(res)...)
 	bcs = append(bcs, kSnappyCases(r.Fork(), b.blocks/2, res)...)
+	bcs = append(bcs, ucases...) // util.Buffer / BufferPool / BytesPrefix / BasicReleaser (ubuf.go)
 	// interleave so that round-robin sharding spreads the heavy table cases
 	var cases []string
 	for len(tcs) > 0 || len(bcs) > 0 {
